@@ -258,7 +258,7 @@ def src_search_methods(ctx):
     for (bits, refs, toks), idx in bsops.diff_scripts(ctx, 'S', bsops.slice_scripts()):
         for i in idx:
             p = toks[i].split(':')
-            kind = {'lu': 'lu', 'li': 'li', 'lb': 'lb', 'sk': 'sk', 'lby': 'lby', 'bit': 'bit', 'lbool': 'bit', 'lr': 'lr', 'lmr': 'lmr', 'lvu': 'lvu', 'lc': 'lc'}.get(p[0])
+            kind = {'lu': 'lu', 'li': 'li', 'lb': 'lb', 'sk': 'sk', 'lby': 'lby', 'bit': 'bit', 'lbool': 'bit', 'lr': 'lr', 'lmr': 'lmr', 'lvu': 'lvu', 'lc': 'lc', 'la': 'la', 'ld': 'lmr'}.get(p[0])
             if kind is None:
                 continue
             req = int(p[1]) if len(p) > 1 and kind in ('lu', 'li', 'lb', 'sk', 'lby') else 0
